@@ -133,6 +133,14 @@ CLAIMS["C10"] = dict(
     technique="Verus contracts with loop invariant and inductive lemmas on mechanically extracted Game methods (unbounded log length), callee contracts imported",
 )
 
+CLAIMS["C11"] = dict(
+    category="proof",
+    text="Game::can_declare_draw is extracted from the real source on every run and verified by Verus for action logs of ANY length: loop invariants tie the running half-move counter to the rule (restarts only on pawn moves and captures) and the candidate list to the positions since the last irreversible event; the nested search is proved to return true exactly when the current position occurred twice before in that window; result: claimable iff no result and (100 reversible half-moves or threefold). declare_draw is in the C10 unit. A seeded native witness search supplies concrete histories (it found the castle-rights/fifty-move defect, now repaired by a fix: commit); one recorded known finding on position identity (en-passant flag for an illegal capture).",
+    design_ref="DESIGN.md §6 C11",
+    note=TRUST + "assumed (listed in evidence): position identity (get_hash, legal move list) == same placement/side/rights/en-passant possibility (outlined as opaque key; the known finding is exactly where this fails), equality/clone of that pair, contracts of Board::make_move_new/piece_on/castle_rights and Game::result, 'irreversible_separates' (occurrences within the window == occurrences in the whole game), log shorter than 2^31 actions (i32 counter).",
+    technique="Verus loop-invariant proof (three loops, early returns) on the mechanically extracted Game::can_declare_draw with position identity outlined + native witness search for concrete histories",
+)
+
 NOT_YET = {}
 
 
